@@ -883,7 +883,12 @@ class TemplateModel(object):
         assert template.ndim == 2
         channel_ids_, amplitude, best_channel = self._find_best_channels(
             template, amplitude_threshold=amplitude_threshold)
-        channel_ids = channel_ids if channel_ids is not None else channel_ids_
+        if channel_ids is not None:
+            # Explicit channels: the amplitudes must describe these channels, in this order.
+            channel_ids = np.asarray(channel_ids)
+            amplitude = template.max(axis=0)[channel_ids] - template.min(axis=0)[channel_ids]
+        else:
+            channel_ids = channel_ids_
         template = template[:, channel_ids]
         assert template.ndim == 2
         assert template.shape[1] == channel_ids.shape[0]
